@@ -89,7 +89,7 @@ class Finding:
 
 
 class Session:
-    def __init__(self, *, typed=False, flavour="str", idconf="default", seed=0):
+    def __init__(self, *, typed=False, flavour="str", idconf="default", seed=0, ext=False):
         from nutree import Tree
         from nutree.common import DictWrapper
         from nutree.typed_tree import TypedTree
@@ -99,6 +99,15 @@ class Session:
         self.idconf = idconf
         self.rng = random.Random(seed)
         base = TypedTree if typed else Tree
+        self.ext = ext
+        default_kind = "child"
+        if ext:
+            # user extensions: node class with falsy leaves and a `name` of its own, tree subclass with other class defaults
+            from . import gen as _gen
+
+            X = _gen.ext_classes()
+            base = X["XTypedTree"] if typed else X["XTree"]
+            default_kind = "kid"
         if flavour == "obj" or idconf != "default":
             rule = _obj_rule
         else:
@@ -114,7 +123,7 @@ class Session:
         else:
             self.tree = base("t")
         self.base_cls = base
-        self.m = M.MTree(typed=typed, rule=rule)
+        self.m = M.MTree(typed=typed, rule=rule, default_kind=default_kind)
         self.bind = {}       # uid -> real node
         self.tok = {}        # id(real node) -> (uid, node)  (strong refs: ids are never reused)
         self.graveyard = []  # (real node, old node_id)
@@ -245,7 +254,7 @@ class Session:
 
     def resync(self):
         """Adopt the real tree as the new model state (after unspecified/unfollowable calls)."""
-        m = M.MTree(typed=self.typed, rule=self.m.rule)
+        m = M.MTree(typed=self.typed, rule=self.m.rule, default_kind=self.m.default_kind)
         m.next_uid = self.m.next_uid
         old_tok = self.tok
         self.bind = {}
@@ -1076,7 +1085,8 @@ def run_history(case, res, *, own_prop, extra_props=()):
     import random as _r
 
     rng = _r.Random(case["seed"])
-    s = Session(typed=case.get("typed", False), flavour=case["flavour"], idconf=case.get("idconf", "default"), seed=case["seed"])
+    s = Session(typed=case.get("typed", False), flavour=case["flavour"], idconf=case.get("idconf", "default"), seed=case["seed"],
+                ext=bool(case.get("ext", case["seed"] % 3 == 0)))
     steps = case["steps"]
     nsteps = 0
     findings = []
